@@ -139,6 +139,30 @@ HANDLERS = {
 }
 
 
+_ROLE_CACHE = {}
+
+
+def role_handlers(prog):
+    """The two helpers of the enumeration are modelled, not interpreted; they are found by signature, whatever their names:
+    the capacity estimate fn(&RobotBody, &HashSet<usize>) -> usize and the task evaluation fn(Vec<CollisionTask>, ..) -> Vec<(u16, u16)>."""
+    key = id(prog)
+    if key in _ROLE_CACHE:
+        return _ROLE_CACHE[key]
+    out = {}
+    for p, b in prog.bodies.items():
+        if not p.startswith('collisions::') or b.kind == 'Closure':
+            continue
+        tys = [b.local_ty(i) for i in range(1, b.arg_count + 1)]
+        ret = b.local_ty(0)
+        if len(tys) == 2 and 'RobotBody' in tys[0] and 'HashSet<usize>' in tys[1] and ret == 'usize':
+            out[cname(p)] = h_count_tasks
+        if tys and 'Vec<' in tys[0] and 'CollisionTask' in tys[0] and '(u16, u16)' in ret:
+            out[cname(p)] = h_process
+    _ROLE_CACHE.clear()
+    _ROLE_CACHE[key] = out
+    return out
+
+
 class Extraction:
     def __init__(self, tasks):
         self.tasks = tasks      # list of dict(i, j, shape_i, shape_j, transform_i, transform_j)
@@ -153,7 +177,7 @@ def extract_table(prog, enum_body, tool, base, n_env, skip=frozenset(), own_safe
     passed = passed_safety or own
     body = body_model(tool, base, n_env, own)
     poses = tuple(Sym(('pose', i)) for i in range(6))
-    I = Interp(prog, HANDLERS, fuel=400000)
+    I = Interp(prog, dict(HANDLERS, **role_handlers(prog)), fuel=400000)
     b = prog.bodies[enum_body]
     # bind parameters by type
     args = []
